@@ -15,7 +15,7 @@ ID = "C02"
 LEVEL = "model_checking"
 LEVEL_TEXT = ("Explicit enumeration of all statement sequences of length 3 (thorough: 4) over an alphabet with one representative per "
               "size mechanism (explicit suffix; width inferred from a literal, a := constant, a backward/forward label, a name shadowed "
-              "by an inner label or `=` defined later/earlier; data lists; .ascii; .text; .incbin of 0/1/5/65541 bytes (the last one crosses two bank ends); macro, loop, "
+              "by an inner label or `=` defined later/earlier, wider and narrower than the outer constant; data lists; .ascii; .text; .incbin of 0/1/5/65541 bytes (the last one crosses two bank ends); macro, loop, "
               "conditional, block, named scope, .include_ips; *= (also to file offset 0 and to the address already reached) and @= moves) x 2 start positions (window start, 3 bytes before a bank end) x "
               "LoROM/HiROM. A label and a unique 4-byte marker follow every statement; the marker's file offset in the real output, "
               "pulled back through the bus model, is where the next byte really went and must equal the label's value from "
@@ -41,11 +41,11 @@ PLACES = {
 }
 TABLE = "10=a\n1112=ab\n20=b\n"
 KINDS = ["ins-explicit", "ins-lit1", "ins-lit2", "ins-lit3", "ins-const", "ins-imm-const", "ins-back", "ins-fwd",
-         "sh-later-label", "sh-earlier-label", "sh-later-eq", "sh-earlier-eq", "sh-scope-label", "sh-macro-label",
+         "sh-later-label", "sh-earlier-label", "sh-later-eq", "sh-earlier-eq", "sh-scope-label", "sh-macro-label", "shw-later-label", "shw-later-eq",
          "db1", "dw2", "dl3", "ptr-back", "ascii", "text", "incbin0", "incbin1", "incbin5",
          "macro-narrow", "macro-wide", "for", "if", "block", "nop", "incips", "org", "org-zero", "org-here", "reloc-rom", "reloc-ram"]
 VARIABLE = {"ins-lit1", "ins-lit2", "ins-lit3", "ins-const", "ins-imm-const", "ins-back", "sh-later-label", "sh-earlier-label",
-            "sh-later-eq", "sh-earlier-eq", "sh-scope-label", "sh-macro-label", "text", "incbin0", "incbin1", "incbin5", "incbin65541",
+            "sh-later-eq", "sh-earlier-eq", "sh-scope-label", "sh-macro-label", "shw-later-label", "shw-later-eq", "text", "incbin0", "incbin1", "incbin5", "incbin65541",
             "macro-narrow", "macro-wide", "for", "if"}
 
 
@@ -121,6 +121,12 @@ def stmt(kind, i, pl):
         return [("block", [lda("", S("sha")), ("eq", "sha", N(0x123456))])]
     if kind == "sh-earlier-eq":
         return [("block", [("eq", "sha", N(0x123456)), lda("", S("sha"))])]
+    # the other direction: the outer constant is WIDE (4-byte lda), the inner definition narrow (a bank-00 label after
+    # `*=` to bank 00, or a small `=` value): emission would be shorter than the label pass assumed
+    if kind == "shw-later-label":
+        return [("block", [lda("", S("shw")), ("label", "shw"), ("data", "db", [N(4)])])]
+    if kind == "shw-later-eq":
+        return [("block", [lda("", S("shw")), ("eq", "shw", N(0x12))])]
     if kind == "sh-scope-label":
         return [("scope", f"ns{i}", [lda("", S("sha")), ("label", "sha"), ("data", "db", [N(2)])])]
     if kind == "sh-macro-label":
@@ -175,7 +181,7 @@ def build(busname, si, kinds):
     pl = PLACES[busname]
     start = pl["starts"][si]
     prog = [
-        ("const", "kc", N(0x1234)), ("const", "kb", N(0x12)), ("const", "sha", N(0x12)),
+        ("const", "kc", N(0x1234)), ("const", "kb", N(0x12)), ("const", "sha", N(0x12)), ("const", "shw", N(0x123456)),
         ("table", "t.tbl"),
         ("macro", "m2", ["pp"], [("ins", "lda", "", DIRECT, S("pp")), ("label", "ml"), ("data", "dw", [S("ml")])]),
         ("macro", "msh", [], [("ins", "lda", "", DIRECT, S("sha")), ("label", "sha"), ("data", "db", [N(3)])]),
